@@ -2,8 +2,8 @@
    Strings are UTF-8 byte lists; every Rust slice is a slice that returns Panic exactly when
    Rust panics. Statements, [exact]/projections, Examples and Print Assumptions only. *)
 From Coq Require Import String Ascii List Arith Bool ZArith.
-Require Import TT.Model.Base TT.Model.C15Utf8 TT.Model.C15Funs TT.Model.C15Project.
-Require Import TT.Proofs.C15Utf8Facts TT.Proofs.C15FunsProofs TT.Proofs.C15ProjectProofs.
+Require Import TT.Model.Base TT.Model.C15Utf8 TT.Model.C15Funs TT.Model.C15Project TT.Model.C15Hash.
+Require Import TT.Proofs.C15Utf8Facts TT.Proofs.C15FunsProofs TT.Proofs.C15ProjectProofs TT.Proofs.C15HashProofs.
 Import ListNotations.
 
 (* every Rust str satisfies the hypothesis of the boundary calculus *)
@@ -216,6 +216,26 @@ Example C15_ex_isolated :
             ex_analysis [good1; Skipped 3; good2] = RunOk r [] /\ r_cmds r = [1; 5] /\ length (r_structs r) = 3 /\ length (r_order r) = 3.
 Proof. eexists. split; [vm_compute; reflexivity|]. split; [vm_compute; reflexivity|]. vm_compute. auto. Qed.
 
+(* the cache-reading path (needs_regeneration_with_events and the cache-hit branches of run_generate and
+   BuildSystem::generate_bindings): whatever the hash texts in the cache file are - the format x of a u64 has
+   no padding, so they can be shorter than 16 digits, and the file may hold any text - the path returns:
+   it compares the texts and prints fixed lines, it never cuts them *)
+Theorem C15_cache_hit_no_slice : forall verbose previous current, exists st, cache_hit_b verbose previous current = Ok st.
+Proof. exact cache_hit_returns. Qed.
+
+(* satisfiable and not vacuous: a u64 whose text has eleven digits; a twelve-digit cut of it panics in the
+   byte calculus, the cache-hit path of the code returns on it with its two fixed lines *)
+Example C15_ex_cache_hit :
+  hex hash_witness = L "31e0567420c" /\ abbrev_b 12 (hex hash_witness) = Panic /\
+  (forall w text, List.length text < w -> abbrev_b w text = Panic) /\
+  let c := {| c_version := 1; c_commands := hex 10111213; c_structs := hex 7; c_config := hex 0;
+              c_combined := hex hash_witness; c_events := [] |} in
+  cache_hit_b true c c = Ok (UpToDate [L "Cache hit - no changes detected, skipping generation"; L "TypeScript bindings are up to date"]).
+Proof.
+  split; [exact hex_witness_text|]. split; [exact (proj2 abbrev_witness_panics)|].
+  split; [exact abbrev_short_panics|]. exact cache_hit_witness.
+Qed.
+
 Print Assumptions C15_utf8_wf.
 Print Assumptions C15_parse_type_structure.
 Print Assumptions C15_split_top_level.
@@ -244,3 +264,4 @@ Print Assumptions C15_isolated.
 Print Assumptions C15_isolated_all.
 Print Assumptions C15_total_pipeline.
 Print Assumptions C15_pipeline_never_out_of_fuel.
+Print Assumptions C15_cache_hit_no_slice.
